@@ -12,7 +12,10 @@ import time
 
 VERIF = os.path.dirname(os.path.dirname(os.path.abspath(__file__)))
 REPO = os.environ.get("VERIF_REPO", "/repo")
-BIN = os.path.join(VERIF, ".build", "bin")
+BUILD = os.environ.get("VERIF_BUILD") or os.path.join(VERIF, ".build")
+if not os.path.isabs(BUILD):
+    BUILD = os.path.join(VERIF, BUILD)
+BIN = os.path.join(BUILD, "bin")
 WILD = os.path.join(BIN, "wild")
 WILD_B2 = os.path.join(BIN, "wild-b2")
 LINKER_DIFF = os.path.join(BIN, "linker-diff")
